@@ -887,10 +887,11 @@ impl FromJson for AnnotationStore {
         let deserializer = &mut serde_json::Deserializer::from_reader(reader);
         self.set_merge_mode(true);
 
-        DeserializeAnnotationStore::new(self)
+        let result = DeserializeAnnotationStore::new(self)
             .deserialize(deserializer)
-            .map_err(|e| StamError::DeserializationError(e.to_string()))?;
+            .map_err(|e| StamError::DeserializationError(e.to_string()));
 
+        //(the temporary state is taken back whether or not the merge succeeded)
         self.set_merge_mode(false);
 
         //reset
@@ -905,7 +906,7 @@ impl FromJson for AnnotationStore {
         self.config.workdir = previous_workdir;
         self.filename = previous_filename;
 
-        Ok(())
+        result
     }
 
     /// Merges an AnnotationStore from a STAM JSON string into the current one
@@ -923,13 +924,13 @@ impl FromJson for AnnotationStore {
 
         self.set_merge_mode(true);
 
-        DeserializeAnnotationStore::new(self)
+        let result = DeserializeAnnotationStore::new(self)
             .deserialize(deserializer)
-            .map_err(|e| StamError::DeserializationError(e.to_string()))?;
+            .map_err(|e| StamError::DeserializationError(e.to_string()));
 
         self.set_merge_mode(false);
 
-        Ok(())
+        result
     }
 }
 
